@@ -10,6 +10,8 @@ R2  accepting sets are sorted: in snstods() the copy of accset[] into dfaacc[].d
     qsort(accset+1, nacc, .., intcmp), and intcmp is ascending (evaluated on sample rule numbers).
 R3  in REJECT variants of the generated scanners the `num_to_read <= 0` edge of yy_get_next_buffer ends in
     the fatal hook (the buffer is never grown and the scan never continues).
+R6  REJECT state stack: every push is a post-increment push through yy_state_ptr (store through the value, then advance by one
+    from the same value) in yylex, yy_get_previous_state and yy_try_NUL_trans; both loops start from yy_state_buf.
 R4  detection of REJECT in actions is satisfiable: for every store `reject = true` in the scanner of scan.l
     that is guarded by a predicate on yytext (all_upper / all_lower / strncmp prefix), the language of the
     rule's pattern intersected with the language of the predicate is non-empty.
@@ -219,13 +221,15 @@ def r3(ctx):
                 cands.add(l[1])
         tests = []
         for x in fn.ins:
-            if x.op == 'icmp' and x.pred in ('sle', 'slt') and x.ops[1] in (('int', 0), ('int', 1)) and local_slot(fn, x.ops[0]) in cands:
-                if (x.pred, x.ops[1][1]) in (('sle', 0), ('slt', 1)): tests.append(x)
+            if x.op == 'icmp' and x.pred in ('sle', 'slt') and x.ops[1] in (('int', 0), ('int', 1), ('int', -1)) and local_slot(fn, x.ops[0]) in cands:
+                tests.append(x)
         if len(tests) != 1: rep.broken('C07.R3: %d tests `num_to_read <= 0` recognised in yy_get_next_buffer of variant %s' % (len(tests), v.name))
         t = tests[0]
         br = t.blk.ins[-1]
         if br.op != 'br' or br.ops != [('reg', t.res)]: rep.broken('C07.R3: `num_to_read <= 0` does not control a branch in %s' % v.name)
-        tb = fn.bmap[br.targets[0]]
+        # the edge taken when no room is left (num_to_read == 0): evaluate the comparison
+        takes_true = {'sle': 0 <= t.ops[1][1], 'slt': 0 < t.ops[1][1]}[t.pred]
+        tb = fn.bmap[br.targets[0] if takes_true else br.targets[1]]
         r = cfg.reach_from_block(tb)
         fatal = [x for x in r if x.op in ('call', 'invoke') and isinstance(x.callee, str) and x.callee in noret]
         escapes = [x for x in r if x.op == 'ret' or x is t]
@@ -241,6 +245,80 @@ def r3(ctx):
                 witness=['%s:%s' % (x.blk.name, x.line) for x in (wit or [])], variant=v.describe())
     rep.setcount('reject_variants', len(vs))
     if len(backends) < 5 and not rep.viol: rep.broken('C07.R3: back ends covered: %s' % sorted(backends))
+
+# =============================================================================== R6
+
+def _root_load(fn, a, ptr):
+    """(load instruction of yy_state_ptr, constant offset) a pointer is derived from, else (None, None)"""
+    off = 0; v = ptr; depth = 0
+    while depth < 12:
+        depth += 1
+        if not isinstance(v, tuple) or v[0] != 'reg': return (None, None)
+        d = fn.def_of(v)
+        if d is None: return (None, None)
+        if d.op == 'bitcast': v = d.ops[0]; continue
+        if d.op == 'getelementptr' and len(d.ops) == 2 and d.ops[1][0] == 'int': off += d.ops[1][1]; v = d.ops[0]; continue
+        if d.op == 'load':
+            import c03
+            return (d, off) if c03.cell_role(a.loc(d.ops[0])) == 'STATEPTR' else (None, None)
+        return (None, None)
+    return (None, None)
+
+def r6(ctx):
+    """the state stack and the scan pointer move in lockstep: in every REJECT scanner each place that makes a transition (the
+    match loop of yylex, the re-scan loop of yy_get_previous_state, yy_try_NUL_trans) stores the new state THROUGH the value
+    of yy_state_ptr and then advances yy_state_ptr by one from that same value (post-increment push); yylex and
+    yy_get_previous_state both start from `yy_state_ptr = yy_state_buf` followed by the push of the start state.  A
+    pre-increment push leaves every entry one slot too high: after a refill REJECT reads the state of the next-shorter
+    length."""
+    import c03
+    rep = ctx.rep
+    vs = ctx.variants(lambda v: 'M4_MODE_USES_REJECT' in variants.mode_symbols(v))
+    n = 0
+    for v in vs:
+        sc = c03.Scanner(v)
+        for role, nm, need in (('LEX', 'yylex', 2), ('GPS', 'yy_get_previous_state', 2), ('NUL', 'yy_try_NUL_trans', 1)):
+            fn = sc.fn(role, having_call='GNB' if role == 'LEX' else None)
+            if fn is None: rep.broken('C07.R6: %s not found in variant %s' % (nm, v.name))
+            a = sc.fa(fn); cfg = sc.prog.cfg(fn)
+            incs = []          # (root load, store of (load + 1) to yy_state_ptr)
+            resets = []
+            ptr_stores = a.cell_stores('STATEPTR')
+            for x in ptr_stores:
+                ld, off = _root_load(fn, a, x.ops[0])
+                if ld is not None and off == 1: incs.append((ld, x))
+                d = fn.def_of(x.ops[0])
+                if d is not None and d.op == 'load' and c03.cell_role(a.loc(d.ops[0])) == 'STATEBUF': resets.append(x)
+            pushes = []
+            for x in fn.ins:
+                if x.op != 'store': continue
+                ld, off = _root_load(fn, a, x.ops[1])
+                if ld is not None: pushes.append((x, ld, off))
+            key = 'C07.R6:%s:%s:state-stack-push-shape' % (SKEL[v.backend], nm)
+            n += 1
+            bad = None
+            for x, ld, off in pushes:
+                if off != 0: bad = (x, 'stores the state at yy_state_ptr%+d (the slot after the increment) instead of through the value yy_state_ptr had before it was advanced' % off); break
+                # the increment starts from the same value: the same load, or a load in the same block with no assignment of
+                # yy_state_ptr between the two loads (`*p = s; ++p;` is the same push as `*p++ = s;`)
+                ok_inc = False
+                for li, st_ in incs:
+                    if li is ld: ok_inc = True
+                    elif li.blk is ld.blk and st_.blk is ld.blk:
+                        lo, hi = sorted((li.idx, ld.idx))
+                        if not any(y.blk is ld.blk and lo < y.idx < hi for y in ptr_stores): ok_inc = True
+                if not ok_inc: bad = (x, 'is not paired with yy_state_ptr = <that value> + 1 (post-increment)'); break
+            if bad is None and len(pushes) < need:
+                bad = (fn.entry.ins[0], 'has %d push(es) of a state, %d expected (%s)' % (len(pushes), need, 'start state + one per character' if need == 2 else 'the NUL transition'))
+            if bad is None and role in ('LEX', 'GPS') and not any(cfg.ins_dominates(r_, x) for r_ in resets for x, _, _ in pushes):
+                bad = (pushes[0][0], 'does not start from yy_state_ptr = yy_state_buf')
+            if bad:
+                rep.fail('C07.R6', key, where(bad[0]), 'REJECT state stack: the push in %s (line %s) %s: stack entries and scan positions get out of step, REJECT then reports the wrong (rule, length) alternatives [variant %s]' % (
+                    nm, bad[0].line, bad[1], v.name), variant=v.describe())
+            else:
+                rep.ok('C07.R6', '%s %s: %d post-increment push(es) through yy_state_ptr%s' % (v.name, nm, len(pushes), ', starting from yy_state_buf' if role != 'NUL' else ''))
+    rep.setcount('R6_instances', n)
+    if n < 45 and not rep.viol: rep.broken('C07.R6 matched %d instances, 3 per REJECT variant expected' % n)
 
 # =============================================================================== R4
 
@@ -359,98 +437,6 @@ def r4(ctx):
 
 # =============================================================================== driver
 
-# =============================================================================== R6
-
-def run_str_pred(fn, data, maxsteps=4000):
-    """concrete evaluation of a call-free (apart from the <ctype.h> table) predicate over a NUL-terminated string"""
-    import c01
-    data = bytes(data) + b'\0'
-    mem = {}; regs = {}
-    for (t, name) in fn.params: regs[name] = ('p', 0)
-    def val(v):
-        if v[0] == 'int': return v[1]
-        if v[0] == 'null': return 0
-        if v[0] == 'reg': return regs[v[1]]
-        raise KeyError(v)
-    blk = fn.entry; prev = None; steps = 0
-    while True:
-        nxt = None
-        for x in blk.ins:
-            steps += 1
-            if steps > maxsteps: raise RuntimeError('evaluation limit')
-            op = x.op
-            if op == 'alloca': regs[x.res] = ('slot', x.res)
-            elif op == 'store': mem[val(x.ops[1])] = val(x.ops[0])
-            elif op == 'load':
-                a = val(x.ops[0])
-                if a[0] == 'slot': regs[x.res] = mem[a]
-                elif a[0] == 'p': regs[x.res] = data[a[1]] if 0 <= a[1] < len(data) else 0
-                elif a[0] == 'ctab': regs[x.res] = ('ctabp',)
-                elif a[0] == 'cent': regs[x.res] = c01._ctype_word(a[1])
-                else: raise RuntimeError('load of %r' % (a,))
-            elif op == 'getelementptr':
-                b = val(x.ops[0]); k = val(x.ops[-1])
-                if isinstance(k, int) and k >= 1 << 63: k -= 1 << 64
-                if b[0] == 'p': regs[x.res] = ('p', b[1] + k)
-                elif b[0] == 'ctabp': regs[x.res] = ('cent', k)
-                else: raise RuntimeError('gep on %r' % (b,))
-            elif op in ('zext', 'sext', 'trunc', 'bitcast'):
-                v = val(x.ops[0])
-                if op == 'sext' and isinstance(v, int) and x.srcty is not None and getattr(x.srcty, 'a', None) == 8 and v >= 128: v -= 256
-                if op == 'trunc' and isinstance(v, int) and x.ty is not None and x.ty.k == 'int': v &= (1 << x.ty.a) - 1
-                regs[x.res] = v
-            elif op in ('and', 'or', 'xor', 'add', 'sub'):
-                a, b = val(x.ops[0]), val(x.ops[1])
-                regs[x.res] = {'and': a & b, 'or': a | b, 'xor': a ^ b, 'add': a + b, 'sub': a - b}[op]
-            elif op == 'icmp':
-                a, b = val(x.ops[0]), val(x.ops[1])
-                regs[x.res] = int({'eq': a == b, 'ne': a != b, 'slt': a < b, 'sle': a <= b, 'sgt': a > b, 'sge': a >= b, 'ult': a < b, 'ule': a <= b, 'ugt': a > b, 'uge': a >= b}[x.pred])
-            elif op in ('call', 'invoke'):
-                if x.callee == '__ctype_b_loc': regs[x.res] = ('ctab',)
-                elif x.callee in c01.CTYPE_FUNCS:
-                    c = val(x.ops[0]); regs[x.res] = int(bool(0 <= c < 128 and lex.POSIX[c01.CTYPE_FUNCS[x.callee]](c)))
-                elif x.callee == 'isascii': regs[x.res] = int(0 <= val(x.ops[0]) < 128)
-                else: raise RuntimeError('call of %s' % x.callee)
-            elif op == 'phi':
-                for v, lab in zip(x.ops, x.cases):
-                    if prev is not None and lab == prev.name: regs[x.res] = val(v)
-            elif op == 'br':
-                if not x.ops: nxt = fn.bmap[x.targets[0]]
-                else: nxt = fn.bmap[x.targets[0] if (val(x.ops[0]) & 1) else x.targets[1]]
-            elif op == 'ret':
-                return val(x.ops[0]) if x.ops else None
-            else: raise RuntimeError('instruction %s' % op)
-        if nxt is None: raise RuntimeError('fell off block %s' % blk.name)
-        prev = blk; blk = nxt
-
-CASE_WORDS = [b'REJECT', b'reject', b'Reject', b'REJECt', b'rEJECT', b'R', b'r', b'YYMORE', b'yymore', b'yyMore', b'A1', b'a1', b'\xc9', b'AB\xe9']
-
-def r6(ctx, rule='C07.R6'):
-    """R6: the case tests behind the REJECT / yymore detection.  scan.l decides that an action uses REJECT when the word is
-    all upper case and yyreject()/yymore() when it is all lower case; all_upper() / all_lower() are evaluated on the IR for a
-    list of words: all_upper(w) holds iff every byte of w is an ASCII capital, all_lower(w) iff every byte is an ASCII small
-    letter.  (A word such as `reject` in `int reject = 1;` must not switch a scanner to REJECT tables: that silently
-    disables the unmatched-rule warnings and the -Cf/-CF refusal logic.)"""
-    rep = ctx.rep; prog = ctx.flex
-    n = 0
-    for name, want in (('all_upper', lambda w: all(65 <= c <= 90 for c in w)), ('all_lower', lambda w: all(97 <= c <= 122 for c in w))):
-        f = prog.fn(name)
-        if f is None: rep.broken('%s() not found in flex' % name)
-        bad = None
-        for w in CASE_WORDS:
-            try: got = run_str_pred(f, w)
-            except Exception as e: rep.broken('%s: %s(%r) not evaluable: %s' % (rule, name, w, e))
-            if bool(got) != want(w): bad = (w, got); break
-        n += 1
-        if bad:
-            rep.fail(rule, '%s:misc.c:%s:case-test' % (rule, name), fwhere(f), '%s(%r) returns %s: the word is %s, so flex %s' % (
-                name, bad[0].decode('latin1'), bad[1], 'not all upper case' if name == 'all_upper' else 'not all lower case',
-                'takes an identifier such as `reject` for REJECT (or misses REJECT)' if name == 'all_upper' else 'mis-detects yyreject()/yymore()'),
-                replay_input='a { int reject = 1; }')
-        else:
-            rep.ok(rule, '%s(): %d words classified as documented' % (name, len(CASE_WORDS)))
-    return n
-
 def run(ctx):
     rep = ctx.rep
     r1(ctx); r2(ctx); r4(ctx); r3(ctx); r6(ctx)
@@ -461,11 +447,11 @@ def run(ctx):
     rep.floor('C07.R1', 2, 'reject with fulltbl, reject with fullspd')
     rep.floor('C07.R2', 2, 'copy in snstods + intcmp')
     rep.floor('C07.R3', 15, 'one per REJECT variant compiled to IR (19 today, all five back ends)')
+    rep.floor('C07.R6', 1, 'state-stack pushes in yylex, yy_get_previous_state, yy_try_NUL_trans of every REJECT variant')
     rep.floor('C07.R4', 2, 'REJECT and yyreject() detection rules of scan.l')
-    rep.floor('C07.R6', 2, 'all_upper, all_lower')
     rep.floor('C07.R5', 10, 'REJECT builds of the language probes')
     rep.undecided += ['the order in which a generated scanner visits (rule, length) alternatives at run time, yytext/yyleng per visit',
-                      'find_rule / yy_state_buf walk in the skeletons (state stack contents, yy_lp cursor)',
+                      'find_rule / yy_state_buf walk in the skeletons (the pops and the yy_lp cursor; the push shape is R6)',
                       'REJECT inside %{ %} blocks or reached through user macros (detection is lexical)']
     rep.assumptions += ['clang -O0 IR of flex / of the instantiated skeletons is a faithful rendering of the sources',
                         'indirect calls in readin() are treated as possible writers of reject/ctrl (none today)',
